@@ -4,9 +4,15 @@ import ScryerModel.Proofs.Fd
 
 Theorems about the REFERENCE semantics in `Model/Fd.lean`: constraint systems over any number
 of variables with any bounded domains (`Dom`: integers, `L..H`, unions) and any finite list of
-constraints.  `solutions s` is the answer sequence of `label/1`.  The propagators of
-`src/lib/clpz.pl` are not mirrored here; they are tied to this reference only by the
-correspondence run (`vlib/props/C27.py`).
+constraints (relations over `+ - * // div mod rem / ^ abs sign min max`, `in`, reified
+connectives on 0/1 variables, all_different/all_distinct, sum/3, scalar_product/4, tuples_in/2,
+element/3).  `solutions s` is the answer sequence of `label/1`.
+
+These theorems prove the REFERENCE.  The propagators and the labeling code of
+`src/lib/clpz.pl` (≈ 8000 lines of Prolog) are not mirrored; they are tied to this reference only
+by the correspondence run (`vlib/props/C27.py`): same answers, each once, same order for the
+leftmost strategies, same multiset for every other option, domains before labeling contain the
+projected solution set, ground constraints decide like is/2.
 -/
 namespace Scryer.Fd
 open List
@@ -16,7 +22,8 @@ def InBox (s : System) (a : List Int) : Prop :=
   List.Forall₂ (fun v d => Dom.mem v d = true) a s.doms
 
 /-- Soundness and completeness: the reference enumeration contains exactly the assignments in
-    the box of the domains that satisfy every constraint. -/
+    the box of the domains that satisfy every constraint (any number of variables, any bounded
+    domains, any finite list of constraints). -/
 theorem C27_sound_complete (s : System) (a : List Int) :
     a ∈ solutions s ↔ InBox s a ∧ ∀ c ∈ s.cs, sat a c = true := by
   rw [mem_solutions]
@@ -28,5 +35,174 @@ theorem C27_each_once (s : System) : (solutions s).Nodup := solutions_nodup s
 /-- the default strategy enumerates in strictly ascending lexicographic order
     (leftmost variable first, ascending values). -/
 theorem C27_default_order (s : System) : (solutions s).Pairwise lexLt := solutions_sorted s
+
+/-- `labeling([down], Vs)`: the reference enumeration with descending values is the reverse of
+    the default one (so it is in strictly descending lexicographic order). -/
+theorem C27_down_order (s : System) : solutionsDown s = (solutions s).reverse :=
+  solutionsDown_eq s
+
+/-- Strategy independence.  Labeling is a search tree in which a branching rule repeatedly
+    splits the remaining candidate values of one open variable into two non-empty parts.  For
+    EVERY valid branching rule — any variable selection (`leftmost`, `ff`, `ffc`, `min`, `max`, or
+    whatever the domains after propagation make them choose), any value order, any of
+    `step`/`enum`/`bisect` — the answers are a permutation of `solutions s`: same set, each once. -/
+theorem C27_any_strategy_permutation (br : Store → Branch) (hv : ValidBranch br) (s : System) :
+    (labelWith br s).Perm (solutions s) := labelWith_perm br hv s
+
+/-- the concrete rules of clpz are valid for every selection function `sel` (arbitrary, e.g.
+    depending on propagated domains) and both value orders: `step` (and `enum`, which visits the
+    leaves in the same order) … -/
+theorem C27_step_valid (sel : Store → Nat) (o : Ord) : ValidBranch (stepBranch sel o) :=
+  stepBranch_valid sel o
+
+/-- … and `bisect`. -/
+theorem C27_bisect_valid (sel : Store → Nat) (o : Ord) : ValidBranch (bisectBranch sel o) :=
+  bisectBranch_valid sel o
+
+/-- corollary: every option combination yields a permutation of the same solution set. -/
+theorem C27_options_permutation (sel : Sel) (o : Ord) (c : Choice) (s : System) :
+    (labelWith (strategy (selIndex sel) o c) s).Perm (solutions s) := by
+  cases c
+  · exact labelWith_perm _ (stepBranch_valid _ o) s
+  · exact labelWith_perm _ (bisectBranch_valid _ o) s
+
+/-- with leftmost selection and ascending values, `step`/`enum` and `bisect` produce exactly the
+    reference sequence (not only a permutation). -/
+theorem C27_leftmost_up_exact (c : Choice) (s : System) :
+    labelWith (strategy (selIndex .leftmost) .up c) s = solutions s := by
+  cases c
+  · exact labelWith_eq_solutions _ (stepBranch_valid _ _) stepBranch_asc s
+  · exact labelWith_eq_solutions _ (bisectBranch_valid _ _) bisectBranch_asc s
+
+/-- Monotonicity: adding constraints only removes solutions (and keeps the order of the rest). -/
+theorem C27_monotone (d : List Dom) (cs extra : List Constraint) :
+    solutions ⟨d, cs ++ extra⟩ = (solutions ⟨d, cs⟩).filter (fun a => extra.all (sat a)) ∧
+    (solutions ⟨d, cs ++ extra⟩).Sublist (solutions ⟨d, cs⟩) := by
+  rw [solutions_append]
+  exact ⟨rfl, List.filter_sublist⟩
+
+/-- Domain expressions denote sets: `\/` is union, posting two domains is intersection; the value
+    list is strictly ascending, hence canonical (equal sets give equal lists). -/
+theorem C27_domain_ops (a b : Dom) (x : Int) :
+    (x ∈ (Dom.union a b).toList ↔ x ∈ a.toList ∨ x ∈ b.toList) ∧
+    (x ∈ inter a.toList b.toList ↔ x ∈ a.toList ∧ x ∈ b.toList) ∧
+    (x ∈ a.toList ↔ a.mem x = true) ∧
+    a.toList.Pairwise (· < ·) ∧ (inter a.toList b.toList).Pairwise (· < ·) :=
+  ⟨by simp [Dom.toList, mem_merge], mem_inter _ _, Dom.mem_toList a x, Dom.toList_sorted a,
+   inter_sorted _ (Dom.toList_sorted a)⟩
+
+theorem C27_domain_canonical (a b : Dom) (h : ∀ x, a.mem x = b.mem x) : a.toList = b.toList :=
+  sorted_ext (Dom.toList_sorted a) (Dom.toList_sorted b)
+    (fun x => by rw [Dom.mem_toList, Dom.mem_toList, h x])
+
+/-- Reification: `B #<==> F` holds iff `B` is 1 and `F` is true, or `B` is 0 and `F` is false
+    (and every variable used as a truth value inside `F` is 0 or 1). -/
+theorem C27_reification (env : List Int) (i : Nat) (f : Form) :
+    sat env (.form (.bin .iff (.bvar i) f)) = true ↔
+      f.boolOk env = true ∧
+      ((env[i]? = some 1 ∧ f.truth env = true) ∨ (env[i]? = some 0 ∧ f.truth env = false)) :=
+  reify_iff env i f
+
+/-- truth table of the connectives `#/\ #\/ #==> #<== #<==> #\`. -/
+theorem C27_truth_table (p q : Bool) :
+    (Conn.apply .and p q = true ↔ (p = true ∧ q = true)) ∧
+    (Conn.apply .or p q = true ↔ (p = true ∨ q = true)) ∧
+    (Conn.apply .imp p q = true ↔ (p = true → q = true)) ∧
+    (Conn.apply .rimp p q = true ↔ (q = true → p = true)) ∧
+    (Conn.apply .iff p q = true ↔ (p = true ↔ q = true)) ∧
+    (Conn.apply .xor p q = true ↔ ¬ (p = true ↔ q = true)) := conn_table p q
+
+/-- the rewriting that clpz's `reify_/2` applies (`#==>` to `#\ … #\/`, `#<==>` to two
+    implications, `#\` (xor), `#>`/`#<`/`#=<` to `#>=`) preserves the meaning, also when a
+    sub-expression is undefined. -/
+theorem C27_reify_rewrites (env : List Int) (f g : Form) (l r : Expr) :
+    sat env (.form (.bin .imp f g)) = sat env (.form (.bin .or (.not f) g)) ∧
+    sat env (.form (.bin .rimp f g)) = sat env (.form (.bin .imp g f)) ∧
+    sat env (.form (.bin .iff f g)) = sat env (.form (.bin .and (.bin .imp f g) (.bin .imp g f))) ∧
+    sat env (.form (.bin .xor f g)) =
+      sat env (.form (.bin .and (.bin .or f g) (.not (.bin .and f g)))) ∧
+    relSat env .gt l r = relSat env .ge l (.bin .add r (.lit 1)) ∧
+    relSat env .le l r = relSat env .ge r l ∧
+    relSat env .lt l r = relSat env .ge r (.bin .add l (.lit 1)) :=
+  ⟨rewrite_imp env f g, rewrite_rimp env f g, rewrite_iff env f g, rewrite_xor env f g,
+   rewrite_gt env l r, rewrite_le env l r, rewrite_lt env l r⟩
+
+/-- Ground expressions agree with is/2: a ground, `/`-free expression `e` translates to an
+    expression `a` of the C01 evaluator, and its clp(Z) value is C01's exact value
+    (`Arith.evalSpec`, proved equal to the implementation's evaluator in C01); undefined ⇔ is/2
+    raises an evaluation/type error. -/
+theorem C27_ground_value (e : Expr) (a : Arith.Expr) (h : toArith e = some a) (env : List Int) :
+    eval env e = (Arith.evalSpec a).toOption := eval_eq_evalSpec e a h env
+
+/-- `X #= E` for ground `E` has the unique solution `X = value of E` when `E` is defined
+    (and none otherwise). -/
+theorem C27_ground_eq_unique (e : Expr) (a : Arith.Expr) (h : toArith e = some a) (d : Dom)
+    (sol : List Int) :
+    sol ∈ solutions ⟨[d], [.form (.rel .eq (.var 0) e)]⟩ ↔
+      ∃ v, sol = [v] ∧ d.mem v = true ∧ Arith.evalSpec a = .ok v := by
+  rw [C27_sound_complete]
+  simp only [InBox, List.mem_singleton, forall_eq, sat, Form.boolOk, Form.truth, relSat,
+    Bool.true_and]
+  constructor
+  · rintro ⟨hb, hs⟩
+    cases hb with
+    | cons hv ht =>
+      cases ht
+      rename_i v
+      refine ⟨v, rfl, hv, ?_⟩
+      rw [eval_eq_evalSpec e a h] at hs
+      simp only [eval, List.getElem?_cons_zero] at hs
+      cases hx : Arith.evalSpec a with
+      | error x => simp [hx, Except.toOption] at hs
+      | ok w =>
+        simp only [hx, Except.toOption, Rel.holds, decide_eq_true_eq] at hs
+        rw [hs]
+  · rintro ⟨v, rfl, hv, hx⟩
+    refine ⟨.cons hv .nil, ?_⟩
+    rw [eval_eq_evalSpec e a h]
+    simp [eval, hx, Except.toOption, Rel.holds]
+
+/-- ground relations agree with is/2 and comparison: `E1 # E2` holds iff both sides evaluate and
+    the values compare accordingly. -/
+theorem C27_ground_relation (r : Rel) (e1 e2 : Expr) (a1 a2 : Arith.Expr)
+    (h1 : toArith e1 = some a1) (h2 : toArith e2 = some a2) (env : List Int) :
+    sat env (.form (.rel r e1 e2)) = true ↔
+      ∃ x y, Arith.evalSpec a1 = .ok x ∧ Arith.evalSpec a2 = .ok y ∧ r.holds x y = true := by
+  simp only [sat, Form.boolOk, Form.truth, relSat, Bool.true_and]
+  rw [eval_eq_evalSpec e1 a1 h1, eval_eq_evalSpec e2 a2 h2]
+  cases Arith.evalSpec a1 <;> cases Arith.evalSpec a2 <;> simp [Except.toOption]
+
+/-! ### non-vacuity: the hypotheses are satisfiable and the branches are reached -/
+
+/-- `X in -3..3, Y in -2..2, X #= Y*Y - 1` -/
+def exSys : System :=
+  ⟨[.range (-3) 3, .range (-2) 2],
+   [.form (.rel .eq (.var 0) (.bin .sub (.bin .mul (.var 1) (.var 1)) (.lit 1)))]⟩
+
+example : solutions exSys = [[-1, 0], [0, -1], [0, 1], [3, -2], [3, 2]] := by decide
+example : exSys.wf = true := by decide
+example : labelWith (strategy (selIndex .ff) .down .bisect) exSys
+    = [[3, 2], [0, 1], [-1, 0], [0, -1], [3, -2]] := by decide
+example : labelWith (strategy (selIndex .leftmost) .up .bisect) exSys = solutions exSys := by decide
+/-- undefined arithmetic makes the atomic relation false, at top level and under `#\`. -/
+example : sat [3] (.form (.rel .eq (.var 0) (.bin .tdiv (.lit 7) (.lit 0)))) = false := by decide
+example : sat [3] (.form (.not (.rel .eq (.var 0) (.bin .tdiv (.lit 7) (.lit 0))))) = true := by decide
+/-- a variable outside the assignment is undefined, not 0. -/
+example : sat [] (.form (.rel .eq (.var 0) (.lit 0))) = false := by decide
+/-- a truth-value variable must be 0 or 1. -/
+example : sat [2] (.form (.bin .imp (.bvar 0) (.const true))) = false := by decide
+/-- the ground translation covers the arithmetic functors. -/
+example : toArith (.bin .pow (.lit 2) (.un .neg (.lit 1))) =
+    some (.bin .pow (.lit 2) (.un .neg (.lit 1))) := rfl
+example : eval [] (.bin .pow (.lit 2) (.un .neg (.lit 1))) = none := by decide
+example : eval [] (.bin .pow (.lit (-1)) (.lit (-3))) = some (-1) := by decide
+example : eval [] (.bin .exdiv (.lit 7) (.lit 2)) = none := by decide
+example : eval [] (.bin .fdiv (.lit (-7)) (.lit 2)) = some (-4) := by decide
+/-- global constraints. -/
+example : solutions ⟨[.range 0 2, .range 0 2],
+    [.allDifferent [.var 0, .var 1, .lit 1], .sum [.var 0, .var 1] .eq (.lit 2)]⟩
+    = [[0, 2], [2, 0]] := by decide
+example : solutions ⟨[.range 0 5, .range 0 5], [.element (.var 0) [.lit 3, .var 1, .lit 5] (.var 1)]⟩
+    = [[1, 3], [2, 0], [2, 1], [2, 2], [2, 3], [2, 4], [2, 5], [3, 5]] := by decide
 
 end Scryer.Fd
